@@ -204,7 +204,8 @@ def run_wrapper(case, ctx):
     try:
         wrapper = models.ModelWrapper(D, Inner(tuple(int(v) for v in perm)), mlgen.signature(out_sig), torus)
         y = wrapper(x)[0]
-        flat = rmisc.to_scalar_layout(blocks, D, 1)
+        # the models flatten their input in sorted type order (what jit/vmap produce); outputs are assigned in output_keys order
+        flat = rmisc.to_scalar_layout({t: blocks[t] for t in sorted(blocks)}, D, 1)
         want = rmisc.from_scalar_layout(flat[perm], out_sig, D, 1)
         got_sig = [(tuple(t), int(c)) for t, c in y.get_signature()]
         if got_sig != [(t, c) for t, c in out_sig]:
